@@ -262,6 +262,10 @@ func runC17(r *Report, tier string) {
 	// R17.4
 	c17Digest(r)
 	checkHashTable(r, "R17.4")
+	// the digest entry point signs the digest it was given (ES*: both key
+	// kinds hand (rand, digest) to the key unchanged)
+	r.rule("R16.2", "(shared with C16) every success exit of a built-in ES* SignDigest is the encode helper's result over ecdsa.Sign(rand, key, digest) resp. key.Sign(rand, digest, opts) with the digest parameter itself.")
+	checkECDSASignDigestPaths(r, "R16.2")
 }
 
 // vpath: one way through a constructor, with calls to in-package helper
